@@ -337,8 +337,11 @@ def known_findings(prop):
 class Stream:
     """one correspondence stream: a list of operation lines (each op is one line, or a whole
     history when `history` is true: then the ops of one file depend on each other)"""
-    def __init__(self, name, ops, history=False, note=""):
+    def __init__(self, name, ops, history=False, note="", module=None, harness=None, lib=None, wraps=None, oracle=None):
         self.name, self.ops, self.history, self.note = name, ops, history, note
+        # a stream may bring its own model module / harness / library variant / oracle
+        # (checks that span several containers: C11, C12, C15)
+        self.module, self.harness, self.lib, self.wraps, self.oracle = module, harness, lib, wraps, oracle
 
 
 class Check:
@@ -445,24 +448,34 @@ class Check:
         except BuildError as e:
             self.violation("build", "build-failure", str(e)[:2000], {"error": str(e)[:4000]})
         # 4 correspondence + oracle
-        if impl_dir and self.harness:
+        self.impl_dir = impl_dir
+        if impl_dir and (self.harness or self.multi):
             for st in self.streams():
                 self.run_stream(st, dok)
             self.extra(impl_dir)
         # 5 decide
         return self.decide()
 
+    def stream_bin(self, st):
+        if st.harness is None:
+            return self.hbin
+        return build_harness(st.harness, self.impl_dir, "asan", st.wraps if st.wraps is not None else self.wraps,
+                             lib=st.lib or self.lib)
+
     def run_stream(self, st, have_driver):
         text = "\n".join(st.ops) + "\n"
-        impl, rc, err = run_proc([self.hbin], text)
+        hbin = self.stream_bin(st)
+        module = st.module or self.module
+        judge_history = st.oracle or self.judge_history
+        impl, rc, err = run_proc([hbin], text)
         info = {"ops": len(st.ops), "impl_rc": rc}
         self.evals += len(st.ops)
         crashed = rc != 0
         # oracle on the implementation's own transcript
-        j = self.judge_history(st.ops, impl)
+        j = judge_history(st.ops, impl)
         model = None
-        if have_driver and self.module:
-            model, mrc, merr = run_model(self.module, text)
+        if have_driver and module:
+            model, mrc, merr = run_model(module, text)
             if mrc != 0:
                 self.violation("corr", "driver-crash", "model driver failed on stream %s: %s" % (st.name, merr[-300:]),
                                {"stream": st.name})
@@ -479,23 +492,26 @@ class Check:
         self.cov["streams"][st.name] = info
         if j is not None:
             i, desc = j
-            ops = self.shrink(st, i, lambda o, im, mo, rc: self.judge_history(o, im) is not None)
+            ops = self.shrink(st, i, lambda o, im, mo, rc: judge_history(o, im) is not None)
             self.violation("property", self.classify(st.ops[i], desc), desc,
-                           {"stream": st.name, "ops": ops, "first_bad_op": st.ops[i], "impl_line": impl[i] if i < len(impl) else None})
+                           {"stream": st.name, "ops": ops, "first_bad_op": st.ops[i], "impl_line": impl[i] if i < len(impl) else None,
+                            "module": module, "harness": st.harness or self.harness, "lib": st.lib or self.lib})
         elif crashed:
             i = min(len(impl), len(st.ops) - 1)
             op = st.ops[i] if len(impl) < len(st.ops) else "<end of stream: %s>" % st.ops[-1].split()[0]
             desc = "harness died (rc=%d) at op #%d `%s`: %s" % (rc, i, op[:120], sanitizer_summary(err))
             ops = self.shrink(st, i, lambda o, im, mo, rc: rc != 0)
             self.violation("crash", self.classify(op, desc), desc,
-                           {"stream": st.name, "ops": ops, "stderr": err[-3000:]})
+                           {"stream": st.name, "ops": ops, "stderr": err[-3000:],
+                            "module": module, "harness": st.harness or self.harness, "lib": st.lib or self.lib})
         elif d is not None:
             op = st.ops[d] if d < len(st.ops) else "<end>"
             desc = "model and implementation differ at op #%d `%s`: impl `%s` model `%s`" % (
                 d, op[:120], (impl[d] if d < len(impl) else "<missing>")[:200],
                 (model[d] if d < len(model) else "<missing>")[:200])
             ops = self.shrink(st, d, lambda o, im, mo, rc: mo is not None and first_diff(im, mo) is not None)
-            self.violation("corr", "corr:" + st.name, desc, {"stream": st.name, "ops": ops})
+            self.violation("corr", "corr:" + st.name, desc, {"stream": st.name, "ops": ops, "module": module,
+                                                             "harness": st.harness or self.harness, "lib": st.lib or self.lib})
 
     def shrink(self, st, idx, pred):
         """minimise the failing operation list; for independent ops that is the single op"""
@@ -503,12 +519,15 @@ class Check:
             return [st.ops[idx]] if idx < len(st.ops) else st.ops[-1:]
         ops = st.ops[:idx + 1]
 
+        hbin = self.stream_bin(st)
+        module = st.module or self.module
+
         def fails(cand):
             text = "\n".join(cand) + "\n"
-            im, rc, _ = run_proc([self.hbin], text, timeout=60)
+            im, rc, _ = run_proc([hbin], text, timeout=60)
             mo = None
-            if os.path.exists(driver_path()) and self.module:
-                mo, mrc, _ = run_model(self.module, text, timeout=60)
+            if os.path.exists(driver_path()) and module:
+                mo, mrc, _ = run_model(module, text, timeout=60)
             return pred(cand, im, mo, rc)
         try:
             return ddmin(ops, fails, budget=120 if self.tier == "quick" else 400)
@@ -533,8 +552,8 @@ class Check:
                 continue
             n += 1
             path = os.path.join(ROOT, "replays", prop, "%s-%d.json" % (kind, n))
-            json.dump({"property": prop, "kind": kind, "key": key, "detail": detail, **payload,
-                       "module": self.module, "harness": self.harness}, open(path, "w"), indent=1)
+            json.dump({"property": prop, "kind": kind, "key": key, "detail": detail,
+                       "module": self.module, "harness": self.harness, **payload}, open(path, "w"), indent=1)
             fatal.append("VIOLATION property=%s replay=%s" % (prop, path))
             log("  violation: " + detail[:400])
         if (proof_broken or corr or other) and not fatal:
